@@ -7,29 +7,18 @@ MIX = ("Mixed check: obligations listed under coverage.unbounded_obligations are
 
 PROPS["C06"] = dict(
     level="other", claimed=True,
-    level_text="Totality contracts (never panics, never overflows, no out-of-bounds index, no unchecked allocation size) on the "
-               "deserializers a proof passes through, decided by Kani on the real functions with fully symbolic header bytes; "
-               "fixed-size headers are covered for every byte string, variable-size payloads up to the stated bound.",
-    level_note="Not decided: verify() end to end on an arbitrary parsed proof (needs a user Air), allocation proportionality "
-               "beyond read_many's capacity, the proven-security estimate (floating point). Trusted: Kani/CBMC, the "
-               "alloc::fmt::format stub (message text only).",
+    level_text='Totality contracts (never panics, never overflows, no out-of-bounds index, no unchecked allocation size) on the deserializers a proof passes through, decided by Kani on the real functions with fully symbolic header bytes (fixed-size headers for every byte string, variable-size payloads up to the stated bound), including the conjectured and the proven security estimate (libm results arbitrary). verify() end to end is covered by bounded native stand-ins only: every damaged version (bit flips, byte extremes, truncations, structured edits of every length-prefixed component, crafted option sets) of the proofs of two pipelines is parsed and verified without a panic.',
+    level_note="Bounded stand-ins are listed under coverage.native_bounded_standins and are not proofs. Not decided: verify() for all byte strings; allocation proportionality beyond read_many's capacity. Panics raised by the example / test AIR's own Air::new on foreign trace shapes are user code and counted separately. Trusted: Kani/CBMC, the alloc::fmt::format stub (message text only).",
     explanation=MIX)
 PROPS["C12"] = dict(
     level="other", claimed=True,
-    level_text="decode(encode(x)) == x, exact consumption, and 'constructor accepts => reader accepts' as Kani contracts on the "
-               "real (de)serializers: complete for the size encoding, fixed-width integers, field elements, ProofOptions, "
-               "FieldExtension and TraceInfo headers; bounded (stated per obligation) for containers and Context.",
-    level_note="Not decided: whole-Proof round trip (modular composition only), ReadAdapter as byte source (C13), containers "
-               "beyond the stated bounds. Trusted: Kani/CBMC, format stub.",
+    level_text="decode(encode(x)) == x, exact consumption, and 'constructor accepts => reader accepts' as Kani contracts on the real (de)serializers: complete for the size encoding, fixed-width integers, field elements, ProofOptions, FieldExtension and TraceInfo headers; bounded (stated per obligation) for containers, Context, OOD frame, tables and FRI proof parts. Whole-Proof round trips (bytes -> Proof -> bytes and equality of the decoded value) on every proof of the two native pipeline stand-ins; ReadAdapter as byte source through C13's differential stand-in.",
+    level_note='Bounded stand-ins are listed under coverage.native_bounded_standins and are not proofs. Not decided: maps / strings; whole-Proof round trip for all proofs. Trusted: Kani/CBMC, format stub.',
     explanation=MIX)
 PROPS["C18"] = dict(
     level="other", claimed=True,
-    level_text="get_conjectured_security equals the documented formula, without overflow, and is monotone, for every parameter "
-               "combination a parsed context can carry (Kani, full domain); num_modulus_bits is the bit length of the claimed "
-               "modulus; AcceptableOptions::validate consults the right estimate and rejects exactly below the minimum "
-               "(contract relative to Proof::security_level).",
-    level_note="Not decided: get_proven_security (f64 log2/powf/sqrt: no faithful model in CBMC) - neither value nor monotonicity; "
-               "the OptionSet arm of validate; the InconsistentBaseField check inside VerifierChannel::new (needs an Air).",
+    level_text='get_conjectured_security equals the documented formula, without overflow, and is monotone, for every parameter combination a parsed context can carry (Kani, full domain); get_proven_security is total (no overflow / underflow / panic) for arbitrary libm results; num_modulus_bits is the bit length of the claimed modulus; AcceptableOptions::validate consults the right estimate and rejects exactly below the minimum (contract relative to Proof::security_level).',
+    level_note='Not decided: the numeric value and monotonicity of get_proven_security (f64 log2/powf/sqrt have no faithful model in CBMC; they are stubbed to arbitrary floats); the OptionSet arm of validate.',
     explanation=MIX)
 PROPS["C19"] = dict(
     level="other", claimed=True,
@@ -43,13 +32,8 @@ PROPS["C19"] = dict(
 
 PROPS["C10"] = dict(
     level="other", claimed=True,
-    level_text="Bounded symbolic execution of the real Merkle code with symbolic leaf digests: trees of 4 and 8 leaves, "
-               "concretely enumerated position lists (ordered, unordered, siblings, non-siblings); completeness (openings verify, "
-               "decompress to the single paths in list order, re-compress) and rejection of every single-element and shape mutation "
-               "without panics; plus a full-domain contract on the index validation (any claimed depth, symbolic positions).",
-    level_note="Bounded: tree sizes 4/8, the listed position lists, one mutation at a time. Rejection is shown for the StubHasher "
-               "double (merge injective in each argument), i.e. as 'recomputed root differs', not as a collision-resistance argument. "
-               "Concurrent tree construction is not covered.",
+    level_text='Kani (bounded): root and single openings on 8 symbolic leaves. Native bounded stand-in on the real batch code: every position subset of trees up to 16 leaves in three orders verifies, decompresses to the single paths and re-compresses; every single-element, shape (extra / missing leaf, node, node vector), depth and position mutation is refused without a panic.',
+    level_note='BTreeMap-based batch code does not finish in CBMC even for concrete arguments, hence the native stand-in (bounded, not a proof). Nothing is proved for all tree sizes; concurrent tree construction is not covered.',
     explanation=MIX)
 
 PROPS["C13"] = dict(
@@ -64,60 +48,36 @@ PROPS["C13"] = dict(
 
 PROPS["C15"] = dict(
     level="other", claimed=True,
-    level_text="Integer part of FRI completeness only: Kani contracts on the real position folding, layer-count and "
-               "position-to-leaf-index functions (layer count and index map complete over their whole admissible domains; "
-               "position folding bounded in list length).",
-    level_note="NOT decided by this check: the folding identity of apply_drp (algebraic identity over symbolic field values, "
-               "beyond the SAT back end) and acceptance of honest proofs end to end; prover reuse.",
+    level_text='Kani contracts on the integer part (layer count and position-to-leaf-index map complete over their admissible domains; position folding bounded in list length). Native bounded stand-in for whole FRI runs on the real prover and verifier: honest proofs of the full parameter grid are accepted after serialization (reused prover, repeated positions, base fields, quadratic and cubic extensions, layers above 64 KiB).',
+    level_note='The folding identity of apply_drp for symbolic field values is beyond the SAT back end; it is exercised, not proved. Bounded stand-ins are listed under coverage.native_bounded_standins.',
     explanation=MIX)
 PROPS["C16"] = dict(
     level="other", claimed=True,
-    level_text="Assertion bookkeeping only: overlaps_with is equivalent to 'a common named step exists' for all pairs of "
-               "well-formed assertions (bounded in trace length), and validate_trace_length / get_num_steps accept exactly the "
-               "well-formed single and periodic assertions (all lengths).",
-    level_note="NOT decided by this check: the zero sets of the transition and boundary divisors (field-valued), the value "
-               "polynomial of BoundaryConstraint, sequence assertions' validation, set_num_transition_exemptions.",
+    level_text="Kani: overlaps_with is equivalent to 'a common named step exists' (bounded in trace length); validate_trace_length / get_num_steps / the single, periodic and sequence constructors accept exactly the well-formed assertions; ConstraintDivisor numerators, exemptions and evaluate_at on bounded domains. Native bounded stand-in for BoundaryConstraints::new (BTreeMap / BTreeSet code): overlapping assertions are refused in every listing order; group divisors vanish exactly on the asserted steps and every constraint compares its cell with the asserted value, for all ordered pairs of assertions on trace lengths 8, 16, 32.",
+    level_note='Bounded (stated per obligation / stand-in). Not decided: divisor zero sets and value polynomials for all domain sizes; set_num_transition_exemptions beyond the exercised values.',
     explanation=MIX)
 
 PROPS["C11"] = dict(
     level="other", claimed=True,
-    level_text="Frequency-domain MDS fast path only: for every state of canonical elements the 12x12 and 8x8 mds_multiply never "
-               "overflow their i64/u64 intermediates and return canonical elements (Kani, full domain over all state words), and "
-               "on scaled unit vectors they return the columns of the documented circulant matrices.",
-    level_note="NOT decided by this check: linearity of the fast path (hence the full matrix product), S-box / inverse S-box / "
-               "round constants against a reference, sponge padding of hash(), merge == hash of concatenation, merge_with_int "
-               "injectivity, independence of hash_elements from representation, Blake3/SHA3 (external crates).",
+    level_text="Kani on the real code with the Rescue permutation replaced by a double (the clauses hold for every permutation): hash_elements of Rp64_256 / Rp62_248 / RpJive64_256 equals the documented sponge written independently in the harness for element lists around the rate boundaries and does not depend on base-versus-extension typing; hash(bytes) == hash_elements(encode(bytes)) with the documented padding; merge == hash of the concatenation; merge_with_int's absorbed encoding is injective. Frequency-domain MDS fast path (12x12, 8x8): no overflow and canonical results for every state; columns of the documented circulant on unit vectors.",
+    level_note='Bounded in input length (stated per obligation). Not decided: S-box / inverse S-box / round constants against a reference; linearity of the MDS fast path for all states (the 12-row product does not finish); Blake3 / SHA3 wrappers (external crates).',
     explanation=MIX)
 
 PROPS["C05"] = dict(
     level="other", claimed=True,
-    level_text="Function-local part of FRI soundness on the real verifier with doubles for channel, hasher and coin: "
-               "the degree-truncation rule of FriVerifier::new, the remainder degree bound, and - for the zero-layer schedule - "
-               "that acceptance implies the remainder is the committed one and agrees with the queried evaluation; the layer count "
-               "(num_fri_layers) is proved for all schedules.",
-    level_note="Bounded shapes (stated per obligation). NOT decided: folding consistency across layers (field-valued "
-               "interpolation), anything probabilistic (distance from low degree), folding factors other than the ones exercised.",
+    level_text='Kani on the real FRI verifier with doubles for channel, hasher and coin: the degree-truncation rule of FriVerifier::new, reseed-then-draw per layer commitment, the remainder degree bound, remainder bound to its commitment, missing commitment refused; num_fri_layers for all schedules. Native bounded stand-in: polynomials above the claimed degree bound are refused, a flipped proof bit is refused, claimed evaluations that differ from the committed layer at a single queried position are refused, read_layer_queries returns values iff verify_batch accepts the opening.',
+    level_note='Bounded shapes (stated per obligation / stand-in). Not decided: folding consistency for symbolic field values; anything probabilistic (distance from low degree).',
     explanation=MIX)
 
 PROPS["C04"] = dict(
     level="other", claimed=True,
-    level_text="Function-local Fiat-Shamir contracts on the real channel code with doubles (Air, hasher, coin): every "
-               "ProverChannel send/commit records the message in the proof and reseeds the coin with exactly that message; the seed "
-               "is hash(context || public inputs); grinding uses the current coin and the smallest nonce; query positions come from "
-               "draw_integers with that nonce; on the verifier side FriVerifier::new reseeds-then-draws per commitment in order. "
-               "The coin's own state-transition contract is C19's.",
-    level_note="NOT decided: the order of calls inside Prover::generate_proof and verifier::perform_verification (two long "
-               "generic functions that need a real proof to execute) - a consistent reordering there is invisible to this check; "
-               "auxiliary-segment randomness; the verifier's proof-of-work comparison.",
+    level_text="Kani on the real channel code with doubles (Air, hasher, coin): every ProverChannel send / commit records the message in the proof and reseeds the coin with exactly that message; the seed is hash(context || public inputs); query positions come from draw_integers with the ground nonce; FriVerifier::new reseeds-then-draws per commitment in order; the coin's own state-transition contract is C19's. Native bounded stand-in: the real prover and verifier run with a recording coin and both operation sequences are compared with the transcript the protocol requires (absorbed values recomputed from the proof bytes, GKR randomness before auxiliary randomness, every challenge after the messages that precede it, identical challenge values), on single-segment, auxiliary and Lagrange-kernel traces over three extension degrees and two hashers.",
+    level_note="Prover::generate_proof and perform_verification are generic over user types and out of both verifiers' reach: their order of coin operations is observed on the stand-in's grid, not proved. One asymmetry is tolerated: the verifier draws an unused folding challenge after the FRI remainder commitment (DESIGN.md 9.1).",
     explanation=MIX)
 PROPS["C03"] = dict(
     level="other", claimed=True,
-    level_text="Canonical decoding of proof components as Kani contracts on the real parsers: OodFrame (no ignored bytes in any of "
-               "its three vectors, frame size fixed), Commitments (every byte consumed), Queries container, and the FRI remainder "
-               "being bound to its commitment (acceptance implies hash(remainder) == last layer commitment).",
-    level_note="Bounded shapes (stated per obligation). NOT decided: bit-flip closure of a whole proof, Queries::parse / "
-               "FriProofLayer::parse leaf recomputation, authentication of openings in read_queried_trace_states / "
-               "read_constraint_evaluations, substitutions that need the full verifier.",
+    level_text='Kani: canonical decoding of proof components on the real parsers (OodFrame: no ignored bytes, frame size fixed; Commitments: every byte consumed; Queries container; Table); the FRI remainder is bound to its commitment. Native bounded stand-ins: every single-bit flip (every 5th bit in the quick tier), byte extreme and truncation of small proofs of two pipelines, and structured edits of every length-prefixed component (shortened, lengthened, emptied; FRI layers removed / duplicated / swapped; optional GKR proof added / removed / resized; counts off by one), are refused; every single-element and shape mutation of Merkle batch openings is refused.',
+    level_note='Bounded (stated per obligation / stand-in). Not decided: adaptive substitutions that need the query positions for components other than the FRI remainder; proofs of all sizes. The FRI partition count is layout-only metadata and excluded, as the property states.',
     explanation=MIX)
 
 PROPS["C20"] = dict(
